@@ -80,6 +80,10 @@ CHECKS = {
                   "Tie: generated full structures (1-3 models, metadata present/absent, all 230 groups, values at/inside/just outside every column limit, negative and inserted residue numbers, altlocs, ANISOU, DBREF/SEQADV/MODRES, bonds) x three writer levels: the real writer's bytes are compared with the model's byte for byte; the file is re-read at three reader levels by the real reader and compared field by field (numbers rounded to column precision) with the original; the second write must be byte identical; files with SEQRES are also re-read with those lines removed; 'fits the documented ranges => validate_pdb silent' on every case generated in-range; a sequentially numbered structure of 100 500 atoms goes through the Loose round trip.",
              note="PARTIAL: the full write->read identity is not a theorem (only the cell-level lemmas are); it is decided per case by the implementation-side oracle on the real writer and reader, and the writer model is tied byte for byte. Open findings (known_findings.json): SEQRES written at Strict / with DBREF is not re-readable; Hermann-Mauguin symbols longer than 11 characters. f64 formatting is modelled on micro-unit decimals.",
              technique="Lean 4 model of the writer + cell round-trip theorems + byte-exact differential correspondence + write/read/write oracle on the real code", ref="DESIGN §7 C03"),
+ 'C06': dict(text="Model: the whole mmCIF reader - CIF lexer (comments, quoted strings, text fields, numbers with sign/decimal/exponent/uncertainty, reserved words, loops, save frames) and parser (cell, symmetry, scale/origx/NCS matrices, atom_site loop with 27 columns, option flags, reshuffle, validate, gate) - as total Lean functions on every character sequence. Theorems: every loop of the lexer consumes input (C06_value_consumes, C06_data_item_consumes, C06_item_consumes - these are the termination proofs Lean demanded of the definitions, so the model never loops); the reader always classifies: a structure whose diagnostics all pass the level, or a rejection list with a failing diagnostic (C06_classifies); a lexer failure is one BreakingError. "
+                  "Absence of panics IN THE CODE is decided by fault enumeration: every prefix of a reference file and of generated files, every single-token replacement by 38 token classes (reserved words, quotes, semicolons, '.', '?', huge numbers, non-ASCII, form feed...), token deletion, 70 structural faults (loop without header, header without values, unterminated quote / text field / save frame, out-of-range cell, matrix and space-group items), multi-fault mutations of grammar-generated documents and invalid UTF-8, x 8 option sets x 3 levels, under catch_unwind; Display/Debug of every diagnostic is called; outcome class, diagnostics multiset and (when accepted) the full dump are compared with the Lean model.",
+             note="level claimed = proof for termination/classification of the model, fault_enumeration for 'never panics' of the Rust code (recorded in the evidence); line/column positions of diagnostics are not modelled; f64 rounding noise of parse_numeric: values are compared in micro-units, numbers with more than 15 significant digits only by outcome class.",
+             technique="Lean 4 termination + classification proofs over the reader model + fault enumeration with differential correspondence", ref="DESIGN §7 C06"),
 }
 NOT_APPLICABLE = {}
 ALL = ['C%02d' % i for i in range(1, 19)]
